@@ -125,6 +125,9 @@ void h_asconsum(void)
             for (i = 0; i < 95; ++i) verif_lines[k][i] = (char)nondet_u8();
             verif_lines[k][95] = 0;
             n = nondet_int(); __CPROVER_assume(n >= 0 && n <= 82);
+#if defined(VERIF_NMIN)
+            if (k == 0) __CPROVER_assume(n >= VERIF_NMIN && n <= VERIF_NMAX);    /* length bucket of this group (first line) */
+#endif
             nn[k] = n;
             verif_lines[k][n] = '\n'; verif_lines[k][n + 1] = 0;            /* a line of n characters and a line end */
             for (i = 0; i < 82; ++i) if (i < n) __CPROVER_assume(verif_lines[k][i] != 0 && verif_lines[k][i] != '\n' && verif_lines[k][i] != '\r');
